@@ -43,6 +43,7 @@ REQUIRED = {
     "multiplicative_noise_runs": 40,
     "nonuniform_volume_runs": 60,
     "collection_runs": 30,
+    "collection_runs_with_vector_member": 10,
     "numba_moment_checks": 3,
     "solvers_seen": 3,
 }
@@ -133,18 +134,36 @@ def build_case(rng):
         multiplicative = True
     else:
         form = str(rng.choice(["list", "dict", "scalar"]))
-        n1, n2 = float(np.round(rng.uniform(0.1, 1), 2)), float(np.round(rng.uniform(0.1, 2), 2))
-        noise = {"list": [n1, n2], "dict": {"u": n1, "v": n2}, "scalar": n1}[form]
+        # collections of scalar and vector fields in varying order; every field has its own variance,
+        # which applies to all of its components
+        layout = [["u", "w"], ["p", "u"], ["u", "p"], ["u", "p", "w"], ["p", "w", "u"]][int(rng.integers(5))]
+        rhs_all = {"u": "-0.3 * u + 0.1 * laplace(u)", "w": "-0.1 * w + 0.2 * u", "p": "-0.2 * p"}
+        if "w" in layout:
+            rhs_all["u"] = "-0.3 * u + 0.2 * w"
+        rhs = {k: rhs_all[k] for k in layout}
+        ns = [float(np.round(rng.uniform(0.1, 2), 2)) for _ in layout]
+        if rng.random() < 0.3 and form != "scalar":
+            ns[int(rng.integers(len(ns)))] = 0.0  # one field without noise (the equation stays stochastic)
         if form == "scalar":
-            n2 = n1
-        eq = pde.PDE({"u": "-0.3 * u + 0.2 * v", "v": "0.1 * laplace(v) - 0.1 * u"}, noise=noise, rng=seed, bc="auto_periodic_neumann")
-        state = pde.FieldCollection([pde.ScalarField(grid, rng.uniform(-1, 1, size=grid.shape)), pde.ScalarField(grid, rng.uniform(-1, 1, size=grid.shape))])
+            ns = [ns[0]] * len(layout)
+        noise = {"list": list(ns), "dict": dict(zip(layout, ns)), "scalar": ns[0]}[form]
+        eq = pde.PDE(rhs, noise=noise, rng=seed, bc="auto_periodic_neumann")
+        members, rows = [], []
+        for name, n in zip(layout, ns):
+            if name == "p":
+                members.append(pde.VectorField(grid, rng.uniform(-1, 1, size=(grid.dim, *grid.shape))))
+                rows += [n] * grid.dim
+            else:
+                members.append(pde.ScalarField(grid, rng.uniform(-1, 1, size=grid.shape)))
+                rows.append(n)
+        state = pde.FieldCollection(members)
         state_kind = "collection"
-        var_form = "per-field " + form
+        var_form = "per-field " + form + (" with vector member" if "p" in layout else "")
 
-        def var_fn(u, n1=n1, n2=n2):
+        def var_fn(u, rows=tuple(rows)):
             v = np.empty(u.shape)
-            v[0], v[1] = n1, n2
+            for k, n in enumerate(rows):
+                v[k] = n
             return v, np.zeros(u.shape)
 
     if solver == "milstein" and not multiplicative and rng.random() < 0.5:
@@ -228,6 +247,8 @@ def run_replay_shard(spec, res: ShardResult, rng):
             res.count("nonuniform_volume_runs")
         if descr["state"] == "collection":
             res.count("collection_runs")
+            if "vector member" in descr["variance"]:
+                res.count("collection_runs_with_vector_member")
         tol_rel = (1e-9 if solver == "implicit" else 1e-12)
         bad = False
         for n, (t, data) in enumerate(record):
